@@ -401,8 +401,15 @@ func runCluster(h *h3, hooks clusterHooks) *cluster {
 			var fs []*simNode
 			ld := c.leader()
 			for _, x := range h.nodes {
-				if x.up && x != ld {
+				if px := c.partition(x); x.up && x != ld && px != nil && px.isFollowing {
 					fs = append(fs, x)
+				}
+			}
+			if len(fs) == 0 { // nobody follows (yet): any other server
+				for _, x := range h.nodes {
+					if x.up && x != ld {
+						fs = append(fs, x)
+					}
 				}
 			}
 			if len(fs) > 0 {
